@@ -732,3 +732,13 @@ Theorem C03_loops_rs_match_model w : 0 < w ->
      Loops.last_digit_index w (Z.of_nat n) fuel a = Done (Z.of_nat (Div.last_digit_index a))).
 Proof. exact (loops_Div_match_model w). Qed.
 Print Assumptions C03_loops_rs_match_model.
+(* ---- checked_next_multiple_of of /repo/src/buint/checked.rs, regenerated on every run, computes exactly the model's
+   U_checked_next_multiple_of (`rem.is_zero()` is the translated loop; checked_rem, the inherent sub and checked_add are
+   calls of the model's functions; a panic of `rhs.sub(rem)` - impossible, rem < rhs - would be Panicked). ---- *)
+From Bnum.Proofs Require Import LoopsTieC03b.
+Theorem C03_loops2_rs_match_model dbg w : 0 < w ->
+  forall n a b fuel, wf w n a -> wf w n b -> (n <= fuel)%nat ->
+  Loops.checked_next_multiple_of dbg w (Z.of_nat n) fuel a b =
+  match U_checked_next_multiple_of dbg w a b with Ret o => Done o | Panic => Panicked end.
+Proof. exact (loops_C03b_match_model dbg w). Qed.
+Print Assumptions C03_loops2_rs_match_model.
